@@ -154,6 +154,16 @@ def judge(res, nvars, js, classes, r, injected=None):
         res.violation("c15:error:%s" % ("stopped" if r.get("stopped") else "other"), r.get("error", "")[:200], case)
         return
     vars_ = r["vars"]
+    if injected is not None and injected.get("component_vars"):
+        res.count("injected_component_checked")
+        cvs = injected["component_vars"]
+        bad = [cv for cv in cvs if uf.kind((vars_[cv][1] or ["any"])[0]) != "conflict"]
+        if bad:
+            res.violation("c15:contradiction-not-conflict:component",
+                          "component variables %s are one value; %d got contradictory evidence %s, yet %s resolved to %s" % (
+                              cvs, injected["victim"], json.dumps(injected["expr"]), bad[:3],
+                              json.dumps((vars_[bad[0]][1] or ["any"])[0])), case)
+            return
     for info in classes:
         rep = info["members"][0]
         data = vars_[rep][1]
@@ -202,6 +212,18 @@ def judge(res, nvars, js, classes, r, injected=None):
 def inject(rng, nvars, js, classes):
     """One contradictory judgement into a word-, mapping- or fixed-array-typed class (where 'must conflict' holds
     for every fold order)."""
+    # (a) a contradiction that sits in the evidence of ONE component variable of a container whose judgements name
+    # several variables for that component: all of them are the same value, so all must end up conflicted
+    conts = [(c, cv) for c in classes if c["kind"] in ("map", "dyn", "fixed") and expected_join(c["emitted"]) == c["kind"]
+             for cv in c.get("components", []) if len(cv) >= 2]
+    if conts and rng.random() < 0.35:
+        info, comp_vars = rng.choice(conts)
+        victim = rng.choice(comp_vars)
+        pair = rng.choice([(["word", 8, "bool"], ["word", 160, "address"]), (["word", 32, "selector"], ["word", 256, "signed"]),
+                           (["word", 160, "address"], ["map", 0, 0]), (["word", 64, "unsigned"], ["word", 65, "unsigned"])])
+        js2 = list(js) + [[victim, pair[0]], [victim, pair[1]]]
+        rng.shuffle(js2)
+        return js2, {"class": None, "expr": list(pair), "component_vars": list(comp_vars), "victim": victim}
     cands = [c for c in classes if c["kind"] in ("word", "map", "fixed") and any(e != "any" for e in c["emitted"])]
     if not cands:
         return None
@@ -255,7 +277,10 @@ def shard(shard_no, nshards, seed, tier, extra):
             for v in res.violations:
                 inj_info = v["case"].get("injected")
                 if isinstance(inj_info, dict) and "class" in inj_info:
-                    v["case"] = dict(v["case"], injected={"expr": inj_info["expr"], "members": inj_info["class"]["members"]})
+                    if inj_info["class"] is None:
+                        v["case"] = dict(v["case"], injected={k: w for k, w in inj_info.items() if k != "class"})
+                    else:
+                        v["case"] = dict(v["case"], injected={"expr": inj_info["expr"], "members": inj_info["class"]["members"]})
         if i < 2:
             res.sample({"nvars": nvars, "judgements": js[:10], "classes": [{k: v for k, v in c.items() if k != "emitted"} for c in classes][:3]})
     d.stop()
@@ -278,9 +303,27 @@ def run(tier, seed, t0):
 
 
 def replay(path):
-    case = json.load(open(path))["case"]
+    rec = json.load(open(path))
+    case = rec["case"]
     d = common.Driver("rel", shim=True)
-    r = d.call({"op": "unify", "nvars": case["nvars"], "judgements": case["judgements"], "budget": 200_000, "rand_seed": 1}, timeout=120)
+    bad = None
+    for hs in (1, 2, 3, 4, 5, 6):
+        r = d.call({"op": "unify", "nvars": case["nvars"], "judgements": case["judgements"], "budget": 200_000, "rand_seed": hs}, timeout=120)
+        if r.get("class") != "ok":
+            bad = "class %s" % r.get("class")
+            break
+        inj = case.get("injected") or {}
+        cvs = inj.get("component_vars") or inj.get("members")
+        if cvs:
+            not_conf = [v for v in cvs if uf.kind((r["vars"][v][1] or ["any"])[0]) != "conflict"]
+            if not_conf:
+                bad = "variables %s carry contradictory evidence %s but %s resolved to %s (hash seed %d)" % (
+                    cvs, json.dumps(inj.get("expr")), not_conf, json.dumps((r["vars"][not_conf[0]][1] or ["any"])[0]), hs)
+                break
     d.stop()
-    print(json.dumps(r)[:1500])
-    return 1
+    if bad:
+        print("VIOLATION-REPLAY", rec.get("signature"), bad)
+        return 1
+    if not (case.get("injected") or {}):
+        print("replay of a join mismatch needs the generator's hidden typing: re-run the check with VERIF_SEED=%s" % rec.get("seed"))
+    return 0
